@@ -250,6 +250,7 @@ pub fn check(s: &str) -> Result<Stats, String> {
 #[derive(Default, Debug)]
 pub struct Sweep {
     pub strings: u64,
+    pub pumped: u64,
     pub tokens: u64,
     pub inner_nodes: u64,
     pub max_depth: usize,
@@ -335,6 +336,7 @@ fn merge(
     for h in handles {
         if let Ok((o, k, s)) = h.join() {
             all.strings += o.strings;
+            all.pumped += o.pumped;
             all.tokens += o.tokens;
             all.inner_nodes += o.inner_nodes;
             all.max_depth = all.max_depth.max(o.max_depth);
@@ -358,6 +360,12 @@ fn merge(
     all.distinct_tree_shapes = shapes.len();
     all
 }
+
+/// Multi-character building blocks for pumped strings (besides the alphabet).
+const PUMP_WORDS: &[&str] = &[
+    "round(", "floor(", "x(", "f(*)", "1.5", "2e3", " to ", "km", "m/s", "^2", "^-1", "°C", "{a b}", "-1", ", ", ") ", " (", "1 +",
+    "* 2", "**", "( ", " )", "1 ", " m",
+];
 
 /// `count` random strings of `min..=max` symbols over `alphabet`.
 pub fn sweep_random(
@@ -384,6 +392,52 @@ pub fn sweep_random(
             for _ in 0..n {
                 s.clear();
                 let len = rng.range(min as i64, max as i64) as usize;
+
+                // Pumped strings: prefix + pattern^k + middle + closing^k + suffix. Counters,
+                // depth limits and leaks in the parser only show after many repetitions of
+                // one short pattern (65 nested calls, 300 parentheses), which uniformly
+                // random strings never contain.
+                if rng.chance(300) {
+                    let pick = |rng: &mut crate::Rng, s: &mut String| {
+                        let total = alphabet.len() + PUMP_WORDS.len();
+                        let i = rng.below(total as u64) as usize;
+                        if i < alphabet.len() {
+                            s.push_str(&alphabet[i]);
+                        } else {
+                            s.push_str(PUMP_WORDS[i - alphabet.len()]);
+                        }
+                    };
+                    let mut pattern = String::new();
+                    for _ in 0..rng.range(1, 5) {
+                        pick(&mut rng, &mut pattern);
+                    }
+                    let mut closing = String::new();
+                    if rng.chance(500) {
+                        for _ in 0..rng.range(1, 3) {
+                            pick(&mut rng, &mut closing);
+                        }
+                    }
+                    let unit = pattern.chars().count() + closing.chars().count();
+                    let k = rng.range(1, (len.max(unit) / unit.max(1)).max(1) as i64) as usize;
+                    for _ in 0..rng.below(4) {
+                        pick(&mut rng, &mut s);
+                    }
+                    for _ in 0..k {
+                        s.push_str(&pattern);
+                    }
+                    for _ in 0..rng.below(3) {
+                        pick(&mut rng, &mut s);
+                    }
+                    for _ in 0..k {
+                        s.push_str(&closing);
+                    }
+                    for _ in 0..rng.below(4) {
+                        pick(&mut rng, &mut s);
+                    }
+                    out.pumped += 1;
+                    run_one(&s, &mut kinds, &mut shapes, &mut out);
+                    continue;
+                }
                 // Sometimes restrict to a small sub-alphabet to get deep
                 // structure (nesting, number continuation) instead of noise.
                 let sub = if rng.chance(500) {
